@@ -92,7 +92,8 @@ impl Exec for Reduce {
 
 impl ReturnType for Reduce {
     fn return_type(&self) -> Type {
-        self.function.return_type().return_type().unwrap() | self.initial_value.return_type()
+        // None only for a function operand of static type `!` (e.g. narrowed to a diverging branch by the folding pass)
+        self.function.return_type().return_type().unwrap_or(Type::Never) | self.initial_value.return_type()
     }
 }
 
